@@ -36,6 +36,11 @@ APIS = [
     ("parallel_temper", {"target_size": "current", "presliced": True}),
     ("tree.slice", {"reslice": True, "presliced": True}),
     ("get_subtree", {}),
+    # restricted index sets (set arithmetic on index names must not leak its iteration order)
+    ("tree.slice", {"allow_outer": False}), ("tree.slice", {"allow_outer": "only"}),
+    # an in-process pool whose tasks run in submission order in some environments and in reverse order in others
+    ("parallel_temper", {"pool": "lazy"}), ("parallel_temper", {"pool": "lazy", "target_size": 8}),
+    ("subtree_reconfigure_forest", {"pool": "lazy"}),
     # the tree has a past (reconfigured, queried, copied) and the same non-inplace seeded call is made twice on it
     ("subtree_reconfigure", {"subtree_search": "bfs", "select": "random", "warm": True, "repeat": True}),
     ("subtree_reconfigure", {"subtree_search": "random", "select": "max", "warm": True, "repeat": True}),
